@@ -18,6 +18,12 @@ CHECKS = {
   "C04": ("Hypothesis vs reference model (diffeq_ref: the difference equation evaluated in exact Fractions), exact equality on Q samples",
           "Generated coefficient vectors with forced special classes (0, +-1, ints, arbitrary floats, Fractions, sparse delays), five construction routes, seven memory kinds and six zero values; every output sample is compared exactly with an independent evaluation of the difference equation, so a wrong sign on a special-cased path, a one-sample state shift or a mis-read memory shows on almost every case. Sampled, not exhaustive.",
           "Samples are Q; floats are taken at their exact binary value; orders <= 9, inputs <= 12 samples; non-dyadic Fraction coefficients compared within 1e-12 x magnitude recursion.", "3/C04"),
+  "C14": ("exhaustive enumeration over (strategy/alias, size) + Hypothesis alpha sweeps vs independent closed forms, prefix/symmetry/COLA relations and identity cross-links",
+          "Every window name and alias at every size 0..256 (quick) / 0..2048 (thorough) is checked against an independently written closed form (trig arguments folded in integers), the periodic==symmetric-prefix relation with float ==, symmetry, range, the constant hop-shifted sums and all cross-reference identities; alpha families are swept by Hypothesis. Exhaustive in (name, size) within the bound.",
+          "Tolerance 1e-12 on closed forms ((1e-12)**alpha for cos with 0<alpha<1); blackman range claim only for alpha <= 0.25; missing wsymm aliases are not asserted.", "3/C14"),
+  "C18": ("Hypothesis + enumerated boundary grids vs one-shot struct.pack (differential: struct strategy, array strategy, oracle) and WAV round trip through the stdlib wave module",
+          "chunks: both strategies, seven formats, all byte orders, sizes crossing 127/128/255/256, ragged tails and pad values are compared byte-for-byte with a single struct.pack of the padded sequence; WavStream: files written by the stdlib wave module (24-bit packed by hand) are decoded and compared exactly (ints with keep, dyadic floats otherwise), header mirrored, file descriptor closed after exhaustion. Sampled plus enumerated boundary grids; thorough decodes every 8- and 16-bit value.",
+          "Trusts struct and wave from the standard library as the codec oracle; floats for 'f' are float32-representable; rates <= 2**28.", "3/C18"),
 }
 NOT_BUILT = "check not built yet in this session (planned in DESIGN.md section 3); no claim is made until it is"
 
